@@ -194,7 +194,7 @@ func runMQueue(c SeqCase, o *vk.Obs) string {
 	default:
 		return r.errf("VK-INFRA unknown constructor %q", c.Ctor)
 	}
-	ctx := func() string { return r.errf("") }
+	ctx := r.errf
 	if msg := guarded(ctx, r.check); msg != "" {
 		return msg
 	}
